@@ -14,6 +14,7 @@ from vlib import common, xgen, faults
 def multi_fault_items(g, n, kmin=2, kmax=8):
     res = []
     names = [x for x in faults.INJECTORS if x not in ("repeat_conflict", "no_trait")]
+    p_au, g.allow_unknown_p = getattr(g, "allow_unknown_p", 0.0), 0.0      # allow_unknown changes what a misplaced bare instruction means
     while len(res) < n:
         it = xgen.gen(g)
         k = g.r.randint(kmin, kmax)
@@ -26,6 +27,7 @@ def multi_fault_items(g, n, kmin=2, kmax=8):
         if len(applied) >= 2:
             it.meta["faults"] = applied
             res.append(it)
+    g.allow_unknown_p = p_au
     return res
 
 
@@ -43,8 +45,11 @@ def run(tier):
                "processes with different environments, on both back-ends. distinct_nontrivial = distinct inputs whose outcome has >=2 diagnostics or whose "
                "expansion has >=2 impls (single-message / single-impl inputs cannot be reordered and count as trivial).")
     g = xgen.G(common.rng_for("C19", tier))
+    g.allow_unknown_p = 0.06
     nvalid, nfault = (600, 1200) if tier == "quick" else (6000, 14000)
     items = [xgen.gen(g) for _ in range(nvalid)] + multi_fault_items(g, nfault)
+    # interleave: what an expansion leaves behind (process- or thread-wide state) must not reach the next one, whatever the next one is
+    g.r.shuffle(items)
     srcs = [it.render() for it in items]
     envs = [None, {"LANG": "tr_TR.UTF-8", "TZ": "Asia/Kathmandu", "O2O_RANDOM_VAR": str(g.r.random())},
             {"LC_ALL": "C", "TZ": "UTC", "HOME": "/nonexistent", "RUST_BACKTRACE": "0"},
